@@ -57,6 +57,11 @@ Proof.
   unfold wrap_tx. destruct r as [t|e]; [|discriminate]. intros H. inversion H; subst. cbn. auto.
 Qed.
 
+Lemma key_order_sub attrs keys l : sub (key_order attrs keys l) l.
+Proof.
+  unfold key_order. destruct keys as [|k1 [|k2 r]]; try apply sub_refl. apply sub_sort.
+Qed.
+
 (* ------------------------------------------------------------------ send = two-phase creation, one argument record *)
 Lemma send_recreation_lemma bcount nw w st rq o1 o2 x :
   h_send bcount nw w st rq o1 o2 = Ok x ->
@@ -529,9 +534,10 @@ Proof.
   unfold scope in C. rewrite I in C. unfold lib_tx_create in C.
   pose proof (create_inputs_ok_lemma _ _ _ _ _ _ _ C) as Q. unfold h_request in Q. cbn [rq_inputs rq_min_conf] in Q.
   rewrite I in Q. cbn in Q. destruct Q as [Q1 Q2]. split.
-  - intros u Hu. destruct (Q1 u Hu) as (A & B & D & _). apply filter_In in A. destruct A as [A1 A2].
+  - intros u Hu. destruct (Q1 u Hu) as (A & B & D & _). apply (proj1 (key_order_sub _ _ _)) in A.
+    apply filter_In in A. destruct A as [A1 A2].
     split; [exact A1|]. split; [exact B|]. split; [apply unspent_not_consumed; assumption|]. split; assumption.
-  - apply Q2. apply (proj2 (sub_filter _ (hs_view st))). exact (proj1 Hi).
+  - apply Q2. apply (proj2 (key_order_sub _ _ _)). apply (proj2 (sub_filter _ (hs_view st))). exact (proj1 Hi).
 Qed.
 
 Lemma h_send_auto bcount nw w st rq o1 o2 x :
@@ -558,9 +564,10 @@ Lemma h_sweep_auto bcount nw w st sq o1 o2 x :
 Proof.
   intros Hi H. apply h_sweep_ok in H. destruct H as [C _]. unfold lib_sweep in C.
   assert (N : NoDup (map u_id (sweep_scope st sq))).
-  { apply (proj2 (sub_filter _ (hs_view st))). exact (proj1 Hi). }
+  { apply (proj2 (key_order_sub _ _ _)). apply (proj2 (sub_filter _ (hs_view st))). exact (proj1 Hi). }
   destruct (sweep_inputs_lemma _ _ _ _ _ _ _ _ C N) as [A B]. split; [|exact B].
-  intros u Hu. destruct (A u Hu) as (A1 & A2 & A3). unfold sweep_scope in A1. apply filter_In in A1. destruct A1 as [V S].
+  intros u Hu. destruct (A u Hu) as (A1 & A2 & A3). unfold sweep_scope in A1.
+  apply (proj1 (key_order_sub _ _ _)) in A1. apply filter_In in A1. destruct A1 as [V S].
   split; [exact V|]. split; [exact A2|]. split; [apply unspent_not_consumed; assumption|]. split; assumption.
 Qed.
 
@@ -577,7 +584,7 @@ Lemma scope_ids st rq u : hinv st -> In u (scope st rq) -> u_id u < hs_next st.
 Proof.
   intros (_ & _ & I3 & _ & I5) H. unfold scope in H. destruct (hq_inputs rq) as [xs|].
   - apply in_app_or in H. destruct H as [H|H]; [apply I3; exact H | apply pseudo_row_ids in H; lia].
-  - apply filter_In in H. apply I3. exact (proj1 H).
+  - apply (proj1 (key_order_sub _ _ _)) in H. apply filter_In in H. apply I3. exact (proj1 H).
 Qed.
 
 Lemma h_create_ids bcount nw w st rq o x :
@@ -604,7 +611,7 @@ Proof.
   intros Hi H i Hin. apply h_sweep_ok in H. destruct H as [C _]. unfold lib_sweep in C.
   apply sweep_conserves_lemma in C. destruct C as (_ & _ & V).
   apply in_map_iff in Hin. destruct Hin as [u [E Hu]]. subst i.
-  pose proof (V u Hu) as Hv. unfold sweep_scope in Hv. apply filter_In in Hv.
+  pose proof (V u Hu) as Hv. unfold sweep_scope in Hv. apply (proj1 (key_order_sub _ _ _)) in Hv. apply filter_In in Hv.
   destruct Hi as (_ & _ & I3 & _). apply I3. exact (proj1 Hv).
 Qed.
 
